@@ -119,6 +119,9 @@ pub struct ErrInfo {
     pub line: Option<u64>,
     pub text: String,
     pub caret: Vec<String>,
+    /// The error carries a location at all (a program line or a position in the typed line).
+    #[serde(default)]
+    pub located: bool,
 }
 
 /// Extracts the " IN <line>" suffix of an error's rendering.
@@ -137,6 +140,7 @@ pub fn err_info(interp: &Interpreter, err: &TracedInterpreterError, last_line: O
         line: err.location.and_then(|l| l.as_numbered()).map(|n| n.line),
         text,
         caret,
+        located: err.location.is_some(),
     }
 }
 
